@@ -10,9 +10,13 @@ contract(GI, variant='str', params=dict(self=TD(), name=Opaque()), raises_any=Tr
          ensures=dict(stack="stack_unchanged(self)", level="level_of(self) == old(level_of(self))"))
 
 
+NAME = object()
+
+
 def _blocks_state(block):
     def hook(E, env):
-        env.locals['blocks'] = E.alloc(HList([VT([VC(x) for x in block])]))
+        # the variable name is ANY string (symbolic): a name must not be mistaken for a marker of the block format
+        env.locals['blocks'] = E.alloc(HList([VT([VS(z3.String('varname')) if x is NAME else VC(x) for x in block])]))
         env.locals['rendered'] = E.alloc(HList([]))
         env.locals['__g_rendered'] = env.locals['rendered']
     return hook
@@ -50,9 +54,9 @@ def _v_exit(quoted):
 
 RB_ = M + '.render_blocks_'
 contract(RB_, variant='C03.quoted', params=dict(blocks=NoneV(), rendered=NoneV(), md=TD(), encoding=Opaque()),
-         pre_hook=_blocks_state(('v', 'x', 'h')), exit_hook=_v_exit(True), uses=[GI + '#str'])
+         pre_hook=_blocks_state(('v', NAME, 'h')), exit_hook=_v_exit(True), uses=[GI + '#str'])
 contract(RB_, variant='C03.plain', params=dict(blocks=NoneV(), rendered=NoneV(), md=TD(), encoding=Opaque()),
-         pre_hook=_blocks_state(('v', 'x')), exit_hook=_v_exit(False), uses=[GI + '#str'])
+         pre_hook=_blocks_state(('v', NAME)), exit_hook=_v_exit(False), uses=[GI + '#str'])
 
 
 def _hq_exit(E, outcome, value, env, prefix):
